@@ -27,6 +27,7 @@ calls is left to the implementation by PEP 634 - CPython itself mixes iteration 
 """
 import itertools
 from vlib import e2, farm
+from props._g6_common import ConfirmCtx
 
 LEVEL = 'exploration'
 ENGINE = 'E2 diffexplore'
@@ -242,7 +243,8 @@ def run(ctx):
     ctx.log('%d statements (%d generated texts are not valid Python and were dropped), %d subjects' % (len(parts), len(notpy), len(subjects)))
     mods = [e2.Mod('c31_%d' % (i // PER_MODULE), PRELUDE, parts[i:i + PER_MODULE], inputs, ext='.py', use_log=True)
             for i in range(0, len(parts), PER_MODULE)]
-    st = e2.run_diff(ctx, mods, keyfn=_keyfn, reach=REACH)
+    cc = ConfirmCtx(ctx, _keyfn)
+    st = e2.run_diff(cc, mods, keyfn=_keyfn, reach=REACH)
     cov = {
         'evaluations': st['evaluations'], 'distinct_nontrivial': st['pairs'],
         'rule': 'a case is counted once per distinct (statement, reference outcome = chosen case + bindings + protocol log) pair: '
@@ -251,6 +253,7 @@ def run(ctx):
         'families': {f: sum(1 for t, _ in srcs if t.startswith(f)) for f in ('F1', 'F2', 'F3', 'F4', 'F5')},
         'dropped_not_valid_python': [t for t, _ in notpy][:40], 'dropped_count': len(notpy),
         'mismatches': st['mismatches'], 'crashes': st['crashes'], 'build_failures': st['build_failures'],
+        'crashes_not_reproduced_on_replay': cc.unreproduced,
         'reach': st.get('reach'), 'reach_gaps': st.get('reach_gaps'),
         'samples': [{'tag': t, 'function': s} for t, s in (srcs[40], srcs[len(srcs) // 2], srcs[-3])],
         'exhaustive': True,
